@@ -182,3 +182,35 @@ def slave_key_is_a_set(ctx):
     ctx.prove("same-set-of-slave-patches-same-vertex", v1 is v2 and len(vl.vertices) == 1)
     v3 = vl.add(Point(x), [names[0][0]])
     ctx.prove("subset-of-the-patches-is-a-different-key", v3 is not v1 and len(vl.vertices) == 2)
+
+
+@proof("C05", "history/blocks-moved-apart-after-backport-are-apart", cases=["translate", "move-one-corner"], level="S", samples=1,
+       functions=["classy_blocks.mesh:Mesh.backport", "classy_blocks.construct.flat.face:Face.update", VL + "add", "classy_blocks.mesh:Mesh.assemble"],
+       note="two touching boxes: assemble, backport, clear, then the second box is moved away (in place) and the mesh assembled again - "
+            "corners are where the user put them, and shared exactly where they still coincide")
+def moved_apart(ctx):
+    a, b = Box([0.0, 0.0, 0.0], [1.0, 1.0, 1.0]), Box([1.0, 0.0, 0.0], [2.0, 1.0, 1.0])
+    mesh = Mesh()
+    mesh.add(a)
+    mesh.add(b)
+    mesh.assemble(skip_edges=True)
+    ctx.prove("touching-boxes-share-four-vertices", len(mesh.vertices) == 12)
+    mesh.backport()
+    mesh.clear()
+    intended_a = np.asarray(a.point_array, dtype=float).copy()
+    intended_b = np.asarray(b.point_array, dtype=float).copy()
+    if ctx.case == "translate":
+        b.translate([0.5, 0.0, 0.0])
+        intended_b = intended_b + np.array([0.5, 0.0, 0.0])
+        expected = 16
+    else:
+        b.bottom_face.points[0].translate([0.0, -0.3, 0.0])     # corner 0 of b touched corner 1 of a
+        intended_b[0] = intended_b[0] + np.array([0.0, -0.3, 0.0])
+        expected = 13
+    ctx.prove("the-other-box-is-where-it-was", bool(np.allclose(np.asarray(a.point_array, dtype=float), intended_a, atol=1e-12)))
+    ctx.prove("the-moved-box-is-where-the-user-put-it", bool(np.allclose(np.asarray(b.point_array, dtype=float), intended_b, atol=1e-12)))
+    mesh.assemble(skip_edges=True)
+    ctx.prove("vertices-shared-exactly-where-corners-still-coincide", len(mesh.vertices) == expected, n=len(mesh.vertices))
+    for op, want in ((a, intended_a), (b, intended_b)):
+        blk = mesh.blocks[[a, b].index(op)]
+        ctx.prove("vertex-sits-at-its-corner", all(np.allclose(np.asarray(blk.vertices[c].position, dtype=float), want[c], atol=TOL) for c in range(8)))
